@@ -753,15 +753,16 @@ theorem concealEnd_touch (th : Nat) (idx : Int) (ms : List Message) : Rel2 Touch
   unfold concealEnd
   split
   · exact Rel2.refl Touch.refl _
-  · have a := scanEndRev_touch th ms.reverse uint32Invalid
-    have b := updEndRev_touch (Or.inl rfl) (recAt (scanEndRev th uint32Invalid ms.reverse).1.reverse (scanEndRev th uint32Invalid ms.reverse).2)
-      (decide (idx > (scanEndRev th uint32Invalid ms.reverse).2)) (scanEndRev th uint32Invalid ms.reverse).1
-    have c := updEndRev_touch (Or.inr rfl) (recAt (scanEndRev th uint32Invalid ms.reverse).1.reverse (scanEndRev th uint32Invalid ms.reverse).2)
-      (decide (idx > (scanEndRev th uint32Invalid ms.reverse).2))
-      (updEndRev lapPH (recAt (scanEndRev th uint32Invalid ms.reverse).1.reverse (scanEndRev th uint32Invalid ms.reverse).2)
-        (decide (idx > (scanEndRev th uint32Invalid ms.reverse).2)) (scanEndRev th uint32Invalid ms.reverse).1)
-    have d := (touch2_trans (touch2_trans a b) c).reverse
-    simpa using d
+  · -- whatever record and overlap flag the update functions are handed
+    have gen : ∀ (ri : RecInfo) (ov : Bool), Rel2 Touch ms
+        (updEndRev sesPH ri ov (updEndRev lapPH ri ov (scanEndRev th uint32Invalid ms.reverse).1)).reverse := by
+      intro ri ov
+      have a := scanEndRev_touch th ms.reverse uint32Invalid
+      have b := updEndRev_touch (Or.inl rfl) ri ov (scanEndRev th uint32Invalid ms.reverse).1
+      have c := updEndRev_touch (Or.inr rfl) ri ov (updEndRev lapPH ri ov (scanEndRev th uint32Invalid ms.reverse).1)
+      have d := (touch2_trans (touch2_trans a b) c).reverse
+      simpa using d
+    exact gen _ _
 
 theorem conceal_touch (first last : Nat) (ms : List Message) : Rel2 Touch ms (conceal first last ms) := by
   unfold conceal
@@ -1045,21 +1046,21 @@ theorem conceal_records (first last : Nat) (ms : List Message) (h : DistOK ms) :
       have a : RecMap (hideIf fun m => lastDist ms - dist m < last) A.reverse (scanEndRev last uint32Invalid A.reverse).1 := by
         rw [scanEndRev_map_unset last (Nat.pos_of_ne_zero hpos) A.reverse hrev hvr, hL]
         exact RecMap.ofMap _ (hideIf_num _) (fun m hm => by simp [hideIf, hm]) _
-      have b := RecMap.ofOthers (ph := lapPH) (by decide)
-        (updEndRev_others lapPH (recAt (scanEndRev last uint32Invalid A.reverse).1.reverse (scanEndRev last uint32Invalid A.reverse).2)
-          (decide (idx > (scanEndRev last uint32Invalid A.reverse).2)) (scanEndRev last uint32Invalid A.reverse).1)
-        (updEndRev_touch (Or.inl rfl) _ _ _)
-      have c := RecMap.ofOthers (ph := sesPH) (by decide)
-        (updEndRev_others sesPH (recAt (scanEndRev last uint32Invalid A.reverse).1.reverse (scanEndRev last uint32Invalid A.reverse).2)
-          (decide (idx > (scanEndRev last uint32Invalid A.reverse).2))
-          (updEndRev lapPH (recAt (scanEndRev last uint32Invalid A.reverse).1.reverse (scanEndRev last uint32Invalid A.reverse).2)
-            (decide (idx > (scanEndRev last uint32Invalid A.reverse).2)) (scanEndRev last uint32Invalid A.reverse).1))
-        (updEndRev_touch (Or.inr rfl) _ _ _)
-      have ab := RecMap.comp (hideIf_num _) a b
-      have abc := RecMap.comp (f := fun m => id (hideIf (fun m => decide (lastDist ms - dist m < last)) m)) (g := id)
-        (fun m => hideIf_num _ m) ab c
-      have r := RecMap.reverse abc
-      simpa using r
+      have gen : ∀ (ri : RecInfo) (ov : Bool), RecMap (hideIf fun m => lastDist ms - dist m < last) A
+          (updEndRev sesPH ri ov (updEndRev lapPH ri ov (scanEndRev last uint32Invalid A.reverse).1)).reverse := by
+        intro ri ov
+        have b := RecMap.ofOthers (ph := lapPH) (by decide)
+          (updEndRev_others lapPH ri ov (scanEndRev last uint32Invalid A.reverse).1)
+          (updEndRev_touch (Or.inl rfl) _ _ _)
+        have c := RecMap.ofOthers (ph := sesPH) (by decide)
+          (updEndRev_others sesPH ri ov (updEndRev lapPH ri ov (scanEndRev last uint32Invalid A.reverse).1))
+          (updEndRev_touch (Or.inr rfl) _ _ _)
+        have ab := RecMap.comp (hideIf_num _) a b
+        have abc := RecMap.comp (f := fun m => id (hideIf (fun m => decide (lastDist ms - dist m < last)) m)) (g := id)
+          (fun m => hideIf_num _ m) ab c
+        have r := RecMap.reverse abc
+        simpa using r
+      exact gen _ _
   unfold conceal
   exact RecMap.comp (hideIf_num _) hs he
 
